@@ -97,7 +97,8 @@ PROPS = {
     'C12': {
         'lean_modules': ['C12'],
         'required_theorems': ['C12_merge_union', 'C12_merge_comm', 'C12_merge_assoc', 'C12_merge_then_update', 'C12_counts_after_merge', 'C12_mismatch'],
-        'suites': ['cms', 'redisconc'],
+        'suites': ['cms', 'redisconc', 'conc'],
+        'race_suites': ['conc'],
         'level': 'proof',
         'explanation': 'Lean: merge of two sketches of equal dimensions is the sketch of the concatenated history (all counts equal), commutative/associative, later updates behave as on the single sketch, mismatch is an error. '
                        'Suite `cms` replays observed merges of both backends through the model and checks argument-unchanged, merge orders, updates after merge, mismatches.',
@@ -151,7 +152,7 @@ PROPS = {
         'lean_modules': ['C09'],
         'required_theorems': ['C09_attach_roundtrip_bloom', 'C09_attach_roundtrip_bloom_params', 'C09_attach_roundtrip_cuckoo', 'C09_attach_roundtrip_cms',
                               'C09_attach_roundtrip_hll', 'C09_attach_roundtrip_topk', 'C09_other_keys_irrelevant'],
-        'suites': ['reattach', 'redistie', 'cuckoo', 'blind'],
+        'suites': ['reattach', 'redistie', 'cuckoo', 'blind', 'redisconc'],
         'level': 'proof',
         'explanation': 'Lean: for every Redis constructor the metadata hash it writes (field names and decimal formatting transcribed) is parsed back by the matching FromKey into the same handle (parameters and keys), and attach depends on nothing but that hash; '
                        'all behaviour of a handle is a function of (parameters, keys, store). Suite `reattach` splits histories between the creating handle and handles re-attached at random points, one in a separate OS process, and compares parameters and every answer after every step.',
